@@ -63,7 +63,7 @@ def judge(strategy, near, inp, run):
         if out != list(inp):
             bad.append(('identity:altered', 'Identity returned %s' % (out,)))
     elif strategy == 'adjacent':
-        if ci != co:
+        if co - ci:
             i = min(co - ci)
             bad.append(('adjacent:extra-coverage',
                         'virtual offsets [%d,%d) are covered by the result %s but not by the input' % (cuts[i], cuts[i + 1], out)))
@@ -104,7 +104,9 @@ def alphabet(rng, k, kind):
         # two compressed blocks, offsets inside each: same-file and cross-file pairs
         f0 = rng.choice([0, 0, 1, 7, 65536])
         f1 = f0 + rng.choice([1, 2, 3, 100, 65536, 1 << 32])
-        while len(offs) < k:
+        while len(offs) < k or len(set(o[0] for o in offs)) < 2:
+            if len(offs) >= k:
+                offs = set()
             offs.add((rng.choice([f0, f1]), rng.choice([0, 1, 2, 0xffff, rng.randrange(65536)])))
     else:
         # distinct files with different distances
@@ -187,14 +189,31 @@ def group_nears(rng, alpha):
     return nears
 
 
-def gen_cases(rng, tier):
-    """Returns (groups, cases): groups are exhaustive enumerations (alphabet, maxlen, thresholds, index range into cases)."""
+def plan_groups(rng, tier):
+    """Exhaustive groups: alphabet, maximal length, thresholds applied to every list."""
+    quick = tier == 'quick'
+    plan = [(4, 'twofiles', 5 if quick else 7), (3, 'files', 6 if quick else 8)]
+    if not quick:
+        plan += [(4, 'files', 6), (5, 'files', 5)]
+    groups = []
+    for k, kind, maxlen in plan:
+        alpha = alphabet(rng, k, kind)
+        groups.append(dict(alpha=alpha, maxlen=maxlen, nears=group_nears(rng, alpha), k=k, lists=0))
+    return groups
+
+
+def group_cases(g):
+    for l in exhaustive(g['alpha'], g['maxlen']):
+        yield dict(chunks=[list(c) for c in l], nil=False, nears=g['nears'], kind='exh%d' % g['k'])
+
+
+def explicit_cases(rng, tier):
+    """Corpus, nil input, random sorted / ill-formed / unsorted lists (compared with the models one by one)."""
     quick = tier == 'quick'
     cases = []
-    groups = []
 
-    def add(chunks, alpha, kind, nn=3, nil=False, nears=None):
-        cases.append(dict(chunks=[list(c) for c in chunks], nil=nil, nears=nears or pick_nears(rng, chunks, alpha, nn), kind=kind))
+    def add(chunks, alpha, kind, nn=3, nil=False):
+        cases.append(dict(chunks=[list(c) for c in chunks], nil=nil, nears=pick_nears(rng, chunks, alpha, nn), kind=kind))
 
     cdir = os.path.join(core.ROOT, 'corpus', 'C17')
     if os.path.isdir(cdir):
@@ -202,32 +221,22 @@ def gen_cases(rng, tier):
             if n.endswith('.json'):
                 d = json.load(open(os.path.join(cdir, n)))
                 cases.append(dict(chunks=d['chunks'], nil=d.get('nil', False), nears=d['nears'], kind='corpus'))
-    plan = [(4, 'twofiles', 5 if quick else 7), (3, 'files', 6 if quick else 8)]
-    if not quick:
-        plan += [(4, 'files', 6), (5, 'files', 5), (5, 'twofiles', 5)]
-    for k, kind, maxlen in plan:
-        alpha = alphabet(rng, k, kind)
-        nears = group_nears(rng, alpha)
-        lo = len(cases)
-        for l in exhaustive(alpha, maxlen):
-            add(l, alpha, 'exh%d' % k, nears=nears)
-        groups.append(dict(alpha=alpha, maxlen=maxlen, nears=nears, lo=lo, hi=len(cases)))
     cases.append(dict(chunks=[], nil=True, nears=[0, -1, MAXI], kind='nil'))
-    for _ in range(320 if quick else 30000):
+    for _ in range(320 if quick else 12000):
         n = rng.choice([2, 3, 6, 8, 12, 20, 40])
         l, files = random_list(rng, n)
         add(l, [(f, 0) for f in files], 'random')
-    for _ in range(80 if quick else 6000):
+    for _ in range(80 if quick else 3000):
         # ill-formed chunks (End before Begin) cover nothing; still sorted by begin
         n = rng.choice([2, 3, 5, 9])
         l, files = random_list(rng, n, wellformed=False)
         add(l, [(f, 0) for f in files], 'illformed')
-    for _ in range(80 if quick else 6000):
+    for _ in range(80 if quick else 3000):
         # unsorted lists are outside the property: model/implementation agreement only
         n = rng.choice([2, 3, 5, 9])
         l, files = random_list(rng, n, sort=False)
         add(l, [(f, 0) for f in files], 'unsorted')
-    return groups, cases
+    return cases
 
 
 # --- digest of an exhaustive group (same function as Model/StrategyRun.v) ------------
@@ -265,11 +274,8 @@ def hcase(c, o):
     return a
 
 
-def group_term(g, cases, obs):
-    d = 0
-    for c, o in zip(cases[g['lo']:g['hi']], obs[g['lo']:g['hi']]):
-        d = (d + hcase(c, o)) & HP
-    return 'CX %s %d%%nat [%s] %d %d' % (cchunks([a + a for a in g['alpha']]), g['maxlen'], '; '.join(cz(n) for n in g['nears']), g['hi'] - g['lo'], d)
+def group_term(g):
+    return 'CX %s %d%%nat [%s] %d %d' % (cchunks([a + a for a in g['alpha']]), g['maxlen'], '; '.join(cz(n) for n in g['nears']), g['lists'], g['digest'])
 
 
 # --- Coq terms ------------------------------------------------------------------
@@ -326,22 +332,13 @@ def strip(o):
     return {k: v for k, v in o.items() if k != 'stack'}
 
 
-def run(res, rng, tier):
-    import time
-    t0 = time.time()
-    stage = {}
-    groups, cases = gen_cases(rng, tier)
-    stage['generate'] = round(time.time() - t0, 2)
-    t0 = time.time()
-    obs = core.run_harness('c17', [{k: v for k, v in c.items() if k != 'kind'} for c in cases], jobs=8)
-    stage['harness'] = round(time.time() - t0, 2)
-    t0 = time.time()
-    in_group = [False] * len(cases)
-    for g in groups:
-        for i in range(g['lo'], g['hi']):
-            in_group[i] = True
-    explicit = []     # (case, obs, term): compared one by one inside Coq
-    broken = set()    # cases without a usable observation
+def harness(cases):
+    return core.run_harness('c17', [{k: v for k, v in c.items() if k != 'kind'} for c in cases], jobs=8)
+
+
+def evaluate(res, cases, obs):
+    """Counts, judges and records failures for a batch; returns the set of indices without a usable observation."""
+    broken = set()
     for i, (c, o) in enumerate(zip(cases, obs)):
         res.evaluations += 1
         chunks = [tuple(x) for x in c['chunks']]
@@ -349,7 +346,7 @@ def run(res, rng, tier):
         for f in features(chunks):
             res.count('has:' + f)
         if len(chunks) >= 2:
-            res.nontrivial.add((tuple(chunks), tuple(c['nears'])))
+            res.nontrivial.add(hash((tuple(chunks), tuple(c['nears']))))
         if 'hang' in o or 'crash' in o or 'bad_case' in o or 'panic' in o or 'garbled' in o:
             res.failures.append(dict(sig='c17:' + ('hang' if 'hang' in o else 'panic' if 'panic' in o else 'harness'),
                                      what='harness did not return an observation', case=c, observed=strip(o)))
@@ -361,25 +358,67 @@ def run(res, rng, tier):
                     res.count('near:' + ('max' if near > (1 << 61) else 'min' if near < -(1 << 61) else 'neg' if near < 0 else 'zero' if near == 0 else 'pos'))
                     if 'out' in r and len(r['out']) not in (len(chunks), 1 if chunks else 0):
                         res.count('compressor:partial-merge')
-                for sig, what in judge(s, near, chunks, r):
-                    one = dict(chunks=c['chunks'], nil=c['nil'], nears=[near] if near is not None else [], strategy=s)
-                    res.failures.append(dict(sig=sig, what=what, case=one, observed=strip(r)))
+                if len(res.failures) < 2000:
+                    for sig, what in judge(s, near, chunks, r):
+                        one = dict(chunks=c['chunks'], nil=c['nil'], nears=[near] if near is not None else [], strategy=s)
+                        res.failures.append(dict(sig=sig, what=what, case=one, observed=strip(r)))
         if any('panic' in r for _, _, r in runs_of(c, o)):
             res.corr_bad.append(dict(case=c, obs=o, note='the model strategies never panic'))
             broken.add(i)
-            continue
-        if not in_group[i]:
-            explicit.append((c, o, coq_term(c, o)))
-    stage['oracle'] = round(time.time() - t0, 2)
-    t0 = time.time()
-    # exhaustive groups: Coq enumerates the same lists, runs the models and compares count and digest
-    gterms = []
+    return broken
+
+
+def batches(it, n):
+    buf = []
+    for x in it:
+        buf.append(x)
+        if len(buf) == n:
+            yield buf
+            buf = []
+    if buf:
+        yield buf
+
+
+def sample_of(c, o):
+    return dict(case=c, observed={k: (v if k != 'compressor' else [strip(x) for x in v]) for k, v in o.items() if k != 'stack'})
+
+
+def run(res, rng, tier):
+    import time
+    stage = dict(harness=0.0, oracle=0.0)
+    groups = plan_groups(rng, tier)
+    expl = explicit_cases(rng, tier)
+    samples = []
+    # exhaustive groups, in batches: implementation, oracle, digest of the observations
     for g in groups:
-        if any(i in broken for i in range(g['lo'], g['hi'])):
-            explicit.extend((cases[i], obs[i], coq_term(cases[i], obs[i])) for i in range(g['lo'], g['hi']) if i not in broken)
-        else:
-            gterms.append((g, group_term(g, cases, obs)))
-    # one shard per exhaustive group (they are the expensive terms), explicit cases spread over all shards
+        g['digest'], g['broken'] = 0, False
+        for cases in batches(group_cases(g), 20000):
+            t0 = time.time()
+            obs = harness(cases)
+            stage['harness'] += time.time() - t0
+            t0 = time.time()
+            broken = evaluate(res, cases, obs)
+            g['lists'] += len(cases)
+            if broken:
+                g['broken'] = True
+            else:
+                for c, o in zip(cases, obs):
+                    g['digest'] = (g['digest'] + hcase(c, o)) & HP
+            stage['oracle'] += time.time() - t0
+            if len(samples) < 3:
+                samples += [sample_of(c, o) for c, o in zip(cases, obs) if len(c['chunks']) >= 3][:1]
+    t0 = time.time()
+    obs = harness(expl)
+    stage['harness'] += time.time() - t0
+    t0 = time.time()
+    broken = evaluate(res, expl, obs)
+    stage['oracle'] += time.time() - t0
+    samples += [sample_of(expl[i], obs[i]) for i in (len(expl) - 200, len(expl) - 1) if 0 <= i < len(expl)]
+    explicit = [(c, o, coq_term(c, o)) for i, (c, o) in enumerate(zip(expl, obs)) if i not in broken]
+    t0 = time.time()
+    # Coq: one shard per exhaustive group (Coq enumerates the same lists, runs both models, compares count and
+    # digest), explicit cases spread over all shards
+    gterms = [(g, group_term(g)) for g in groups if not g['broken']]
     nsh = max(len(gterms), min(6 if tier == 'quick' else 16, (len(explicit) + 63) // 64), 1)
     per = (len(explicit) + nsh - 1) // nsh + 1
     terms, tags = [], []
@@ -388,7 +427,8 @@ def run(res, rng, tier):
         if k < len(gterms):
             terms.append(gterms[k][1])
             tags.append(('g', k))
-        take, rest = rest[:per - 1 if k < len(gterms) else per], rest[per - 1 if k < len(gterms) else per:]
+        n = per - 1 if k < len(gterms) else per
+        take, rest = rest[:n], rest[n:]
         for j in take:
             terms.append(explicit[j][2])
             tags.append(('e', j))
@@ -396,37 +436,42 @@ def run(res, rng, tier):
     if err:
         res.corr_bad.append(dict(error=err))
     note = 'the Coq models of the strategies (generated loop translation and functional model) disagree with the implementation'
-    again = []
+    redo = [g for g in groups if g['broken']]
     bad_groups = []
     for i in bad:
         kind, j = tags[i]
         if kind == 'g':
-            g = gterms[j][0]
+            redo.append(gterms[j][0])
             bad_groups.append(gterms[j][1][:300])
-            again.extend((cases[x], obs[x], coq_term(cases[x], obs[x])) for x in range(g['lo'], g['hi']))
         else:
             c, o, t = explicit[j]
             res.corr_bad.append(dict(case=c, obs=o, coq_case=t, note=note))
-    if again:
-        # a digest differs: compare that group's cases one by one to name the lists
-        bad2, err = core.coq_mismatches(HEADER, 'c17case', 'c17_agree', [t[2] for t in again], 'c17', shard=1000)
-        if err:
-            res.corr_bad.append(dict(error=err))
-        for i in bad2[:20]:
-            c, o, t = again[i]
-            res.corr_bad.append(dict(case=c, obs=o, coq_case=t, note=note))
-        if not bad2:
+    for g in redo:
+        # a digest differs (or an observation is missing): compare that group's cases one by one to name the lists
+        found = 0
+        for cases in batches(group_cases(g), 5000):
+            obs = harness(cases)
+            again = [(c, o, coq_term(c, o)) for c, o in zip(cases, obs) if 'identity' in o and not any('panic' in r for _, _, r in runs_of(c, o))]
+            bad2, err = core.coq_mismatches(HEADER, 'c17case', 'c17_agree', [t[2] for t in again], 'c17', shard=1000)
+            if err:
+                res.corr_bad.append(dict(error=err))
+            for i in bad2[:10]:
+                c, o, t = again[i]
+                res.corr_bad.append(dict(case=c, obs=o, coq_case=t, note=note))
+            found += len(bad2)
+            if found >= 10:
+                break
+        if not found and not g['broken']:
             res.corr_bad.append(dict(note='digest of an exhaustive group differs although every case agrees: enumeration in Coq and in the driver differ',
                                      groups=bad_groups))
-    stage['coq_correspondence'] = round(time.time() - t0, 2)
-    res.extra['stage_seconds'] = stage
-    res.extra['exhaustive_groups'] = [dict(alphabet=g['alpha'], max_len=g['maxlen'], thresholds=g['nears'], lists=g['hi'] - g['lo']) for g in groups]
+    stage['coq_correspondence'] = time.time() - t0
+    res.extra['stage_seconds'] = {k: round(v, 2) for k, v in stage.items()}
+    res.extra['exhaustive_groups'] = [dict(alphabet=g['alpha'], max_len=g['maxlen'], thresholds=g['nears'], lists=g['lists']) for g in groups]
     res.rule = ('every list of well-formed chunks sorted by begin, of length 0..n, over small offset alphabets drawn from the seed (see exhaustive_groups: '
                 'two files x block offsets, and distinct files), incl. empty/nil, nested, touching, duplicate, zero-length, each with 4 Compressor thresholds '
                 '(file distances +-1, 0/+-1, one next to MaxInt64/MinInt64); random lists of 2..40 chunks over realistic offsets, some with ill-formed (End<Begin) chunks, '
-                '3 thresholds each; unsorted lists for model agreement only. A case is distinct by (chunks, thresholds); non-trivial = at least 2 chunks (the merge loops execute)')
-    pick = [i for i, c in enumerate(cases) if len(c['chunks']) >= 3][:3] + [len(cases) - 300, len(cases) - 1]
-    res.samples = [dict(case=cases[i], observed={k: (v if k != 'compressor' else [strip(x) for x in v]) for k, v in obs[i].items() if k != 'stack'}) for i in pick if 0 <= i < len(cases)]
+                '3 thresholds each; unsorted lists for model agreement only; corpus cases. A case is distinct by (chunks, thresholds); non-trivial = at least 2 chunks (the merge loops execute)')
+    res.samples = samples
     res.trusted = TRUSTED
     res.assumptions = ASSUME
 
@@ -455,23 +500,28 @@ def replay(res, rp):
 
 TRUSTED = [
     'Coq 8.16.1 kernel (coqc); vm_compute used for case evaluation only; no native_compute',
-    'translator /verif/gen (gen/emit_strategy.go: Go AST of vOffset, adjacent, squash, CompressorStrategy -> Gallina, statement by statement: '
-    'index loop with fuel, value copy vs pointer into the slice, append-delete idiom, int64 wrap); validated on every run by evaluating the generated functions on the cases the implementation ran',
-    'a []bgzf.Chunk is modelled as the list of its elements (backing array beyond len not modelled); Go int (loop index) is unbounded Z; int64 wraps explicitly',
+    'translator /verif/gen (gen/emit_strategy.go: Go AST of vOffset, adjacent, squash, identity and the CompressorStrategy closure -> Gallina, statement by statement: '
+    'index loop with fuel, copy of chunks[c-1] vs pointer to chunks[c], append-delete idiom as list deletion, range loop as fold, int64 wrap); proved equal to the functional model '
+    'for all inputs and validated on every run by evaluating both inside Coq on the cases the implementation ran',
+    'a []bgzf.Chunk is modelled as the list of its elements (backing array beyond len and nil-vs-empty not modelled); Go int (loop index) is unbounded Z; int64 wraps explicitly',
+    'exhaustive groups are compared through the number of lists and a 61-bit polynomial digest of (input, results, second applications), re-sent case by case when it differs',
     'axioms: none (Print Assumptions: Closed under the global context)',
 ]
 ASSUME = [
-    'offsets are those of a BGZF file: 0 <= File < 2^47 (so File<<16 does not wrap in int64), 0 <= Block < 2^16; thresholds are any int64',
+    'offsets are those of a BGZF file: 0 <= File < 2^47 (so File<<16 does not wrap in int64), 0 <= Block < 2^16; thresholds are any integer (every int64)',
     'position coverage: a chunk covers the virtual offsets v with File(Begin)*2^16+Block(Begin) <= v < File(End)*2^16+Block(End)',
-    'input lists are sorted by begin offset (internal.Index.MergeChunks sorts before applying a strategy); idempotence and the model/implementation agreement do not need it',
+    'input lists are sorted by begin offset (internal.Index.MergeChunks sorts before applying a strategy); totality, idempotence, the Compressor gap, '
+    'the run characterisation and the model/implementation agreement do not need it',
 ]
 
 CLAIM = dict(
-    text='Machine-checked proof (Coq 8.16.1) about the Gallina translation of vOffset, adjacent, squash and CompressorStrategy that /verif/gen regenerates from '
-         'bgzf/index/strategy.go on every run: for every list of BGZF chunks sorted by begin and every int64 threshold the result is sorted by begin and covers every '
-         'position the input covers; Adjacent covers exactly the same positions with pairwise separated chunks; Squash returns the single enclosing chunk; a Compressor '
-         'leaves no two neighbours within its threshold; every strategy is idempotent; every result is the list of enclosing chunks of a partition of the input into consecutive runs. '
-         'The translation is validated on every run by evaluating it inside Coq on the cases the implementation ran.',
-    note='Trusted: Coq kernel; the translator gen/emit_strategy.go (loop shape, slice-as-list, int64 wrap). Offsets assumed to be BGZF offsets (File < 2^47). No axioms.',
-    technique='Coq proof over source-regenerated Gallina + vm_compute correspondence + position-set oracle',
+    text='Machine-checked proof (Coq 8.16.1) about the Gallina translation of vOffset, identity, adjacent, squash and the CompressorStrategy closure that /verif/gen regenerates '
+         'statement by statement from bgzf/index/strategy.go on every run: each strategy returns normally on every chunk list; for every list of BGZF chunks sorted by begin and every '
+         'threshold the result is sorted by begin and covers every position the input covers; Adjacent covers exactly the same positions with pairwise separated chunks; Squash returns '
+         'the single enclosing chunk; a Compressor leaves no two neighbours within its threshold (all int64 thresholds, after the overflow fix); every strategy is idempotent; every result '
+         'is the list of enclosing chunks of the maximal runs the strategy documents (nothing more is merged). The translation is proved equal to a functional model and both are '
+         'evaluated inside Coq on the cases the implementation ran (all sorted lists up to length 5-6 over small alphabets, random larger ones); a position-set oracle judges the implementation.',
+    note='Trusted: Coq kernel; the translator gen/emit_strategy.go (loop shape, slice-as-list, pointer-into-slice as index, int64 wrap). Offsets assumed to be BGZF offsets (File < 2^47). '
+         'No axioms. Found and fixed: CompressorStrategy threshold sum overflowed for near close to MaxInt64.',
+    technique='Coq proof over source-regenerated Gallina (loops included) + vm_compute correspondence + position-set oracle',
     design='6/C17')
